@@ -135,6 +135,11 @@ theorem stdMerge_fragments (t : UInt8) (acc : Bytes) (v : Bytes) (last : Nat)
 end Hc.Tlv8
 
 namespace Hc.Tlv8
+theorem serialize_append (c d : Container) : serialize (c ++ d) = serialize c ++ serialize d := by
+  induction c with
+  | nil => rfl
+  | cons i is ih => simp [serialize, ih, List.append_assoc]
+
 /-- every item of a parsed container cost at least two bytes of input (tag, length) plus its value -/
 theorem parse_cost : ∀ (n : Nat) (bs : Bytes) (is : Container), bs.length ≤ n → parse bs = .ok is →
     2 * is.length + (is.map (fun i => i.val.length)).sum ≤ bs.length := by
